@@ -197,19 +197,19 @@ Proof.
 Qed.
 
 (* ---------- the header *)
-(* in a debug build the u16 search-range arithmetic panics from 4096 tables on; in a release build
-   it wraps, so there the bound is an assumption *)
+(* the 16-bit search fields are computed with checked arithmetic: from 4096 tables on the writer
+   refuses (WriteError::BadValue), in every build *)
 Lemma offset_table_header_lt4096 m ver num hdr :
-  offset_table_header m ver num = Ok hdr -> 1 <= num -> (m = Release -> num < 4096) -> num < 4096.
+  offset_table_header m ver num = Ok hdr -> 1 <= num -> num < 4096.
 Proof.
-  intros H Hn Hm. destruct m; [|apply Hm; reflexivity].
+  intros H Hn.
   destruct (Z.lt_ge_cases num 4096) as [|Hge]; [assumption|exfalso].
   unfold offset_table_header in H. destruct (65535 <? num) eqn:E; [discriminate|].
   unfold max_power_of_2 in H. replace (num <=? 0) with false in H by lia.
   assert (12 <= Z.log2 num) as Hlog by (change 12 with (Z.log2 4096); apply Z.log2_le_mono; lia).
   assert (2 ^ 12 <= 2 ^ Z.log2 num) as Hpow by (apply Z.pow_le_mono_r; lia).
   change (2 ^ 12) with 4096 in Hpow.
-  unfold u16_arith in H.
+  unfold u16_checked in H.
   destruct ((0 <=? 2 ^ Z.log2 num * 16) && (2 ^ Z.log2 num * 16 <? 65536)) eqn:E2; [lia|].
   cbn [bind] in H. discriminate.
 Qed.
@@ -274,10 +274,9 @@ Qed.
 Theorem build_valid m ver tables file :
   build_font m ver tables = Ok file -> tables_wf tables ->
   Forall (fun tb => u32v (fst tb)) tables ->
-  (m = Release -> len tables < 4096) ->
   valid_sfnt file = true.
 Proof.
-  intros H Hwf Htags Hm. pose proof (build_checksum _ _ _ _ H Hwf) as [Hal4 Hsum].
+  intros H Hwf Htags. pose proof (build_checksum _ _ _ _ H Hwf) as [Hal4 Hsum].
   destruct Hwf as [Hsorted [Hcount Hhead]].
   assert (1 <= len tables) as Hn1.
   { destruct tables as [|tb ts]; [discriminate Hcount|]. rewrite len_cons. pose proof (len_nonneg ts). lia. }
@@ -391,15 +390,13 @@ Theorem build_from_inserts_valid_map m ver ins file :
   build_from_inserts m ver ins = Ok file ->
   count_head (table_map ins) = 1%nat ->
   Forall (fun tb => u32v (fst tb) /\ (fst tb = HEAD_TAG -> head_ok (snd tb))) (table_map ins) ->
-  (m = Release -> len (table_map ins) < 4096) ->
   valid_sfnt file = true.
 Proof.
-  intros H Hcount Hall Hm. unfold build_from_inserts in H. fold (table_map ins) in H.
+  intros H Hcount Hall. unfold build_from_inserts in H. fold (table_map ins) in H.
   apply (build_valid m ver (table_map ins) file H).
   - split; [apply build_directory_sorted|]. split; [exact Hcount|].
     rewrite Forall_forall in *. intros tb Hin. apply (Hall tb Hin).
   - rewrite Forall_forall in *. intros tb Hin. apply (Hall tb Hin).
-  - exact Hm.
 Qed.
 
 (* ... and with every hypothesis stated on the insertion sequence itself *)
@@ -407,16 +404,13 @@ Theorem build_from_inserts_valid m ver ins file :
   build_from_inserts m ver ins = Ok file ->
   In HEAD_TAG (map fst ins) ->
   Forall (fun tb => u32v (fst tb) /\ (fst tb = HEAD_TAG -> head_ok (snd tb))) ins ->
-  (m = Release -> len ins < 4096) ->
   valid_sfnt file = true.
 Proof.
-  intros H Hin Hall Hm. apply (build_from_inserts_valid_map m ver ins file H).
+  intros H Hin Hall. apply (build_from_inserts_valid_map m ver ins file H).
   - apply count_head_sorted; [apply build_directory_sorted|].
     unfold table_map. apply inserts_keys. left. exact Hin.
   - rewrite Forall_forall in *. intros tb Htb. unfold table_map in Htb.
     apply inserts_in in Htb. destruct Htb as [Htb|[]]. apply (Hall tb Htb).
-  - intros Hr. specialize (Hm Hr). pose proof (len_inserts ins []) as Hl. rewrite len_nil in Hl.
-    unfold table_map. lia.
 Qed.
 
 (* ---------- witnesses: the hypotheses are satisfiable, and each one is needed *)
@@ -463,25 +457,32 @@ Proof.
     apply range_In in Hi. cbn [fst snd]. unfold u32v, HEAD_TAG. split; [lia|intros Hh; lia].
 Qed.
 
-Lemma wit_many_release :
-  exists file, build_from_inserts Release 65536 wit_many = Ok file /\ valid_sfnt file = false.
-Proof.
-  assert (match build_from_inserts Release 65536 wit_many with
-          | Ok f => be16_at f 6 =? 2 ^ max_power_of_2 (be16_at f 4) * 16
-          | _ => true end = false) as Hw by (vm_compute; reflexivity).
-  destruct (build_from_inserts Release 65536 wit_many) as [f| | |]; try discriminate Hw.
-  exists f. split; [reflexivity|]. apply valid_sfnt_false_search_range. exact Hw.
-Qed.
-
-Lemma wit_many_needed :
+(* 4096 tables: the 16-bit search fields cannot hold the values; the writer refuses in every build
+   (before the repair c89f93a a release build wrote a wrapped searchRange and a debug build panicked) *)
+Lemma wit_many_refused :
   In HEAD_TAG (map fst wit_many) /\
   Forall (fun tb => u32v (fst tb) /\ (fst tb = HEAD_TAG -> head_ok (snd tb))) wit_many /\
   len wit_many = 4096 /\
-  (exists file, build_from_inserts Release 65536 wit_many = Ok file /\ valid_sfnt file = false) /\
-  build_from_inserts Debug 65536 wit_many = Panic.
+  build_from_inserts Release 65536 wit_many = Err BadValue /\
+  build_from_inserts Debug 65536 wit_many = Err BadValue.
 Proof.
   split; [apply wit_many_hyps|]. split; [apply wit_many_hyps|]. split; [vm_compute; reflexivity|].
-  split; [exact wit_many_release|]. vm_compute. reflexivity.
+  split; vm_compute; reflexivity.
+Qed.
+
+(* for every table count from 4096 on, whatever the tables are *)
+Lemma too_many_tables_refused m ver tables :
+  4096 <= len tables <= 65535 -> build_font m ver tables = Err BadValue.
+Proof.
+  intros Hn. unfold build_font, offset_table_header.
+  replace (65535 <? len tables) with false by lia.
+  unfold max_power_of_2. replace (len tables <=? 0) with false by lia.
+  assert (12 <= Z.log2 (len tables)) as Hlog by (change 12 with (Z.log2 4096); apply Z.log2_le_mono; lia).
+  assert (2 ^ 12 <= 2 ^ Z.log2 (len tables)) as Hpow by (apply Z.pow_le_mono_r; lia).
+  change (2 ^ 12) with 4096 in Hpow.
+  unfold u16_checked.
+  replace ((0 <=? 2 ^ Z.log2 (len tables) * 16) && (2 ^ Z.log2 (len tables) * 16 <? 65536)) with false by lia.
+  reflexivity.
 Qed.
 
 (* small witnesses: all hypotheses of build_valid but one hold, the writer succeeds, the judge rejects *)
